@@ -19,6 +19,15 @@ EXPLORED, not proved (ctx.explored['history_differential'], oracle = the impleme
   error-model objects of all families, each call compared with the same call on fresh objects, all functools caches
   cleared, in a subprocess with another PYTHONHASHSEED and without the true error as context; caller arrays and
   code.stabilizers / logical_xs / logical_zs / logicals hashed before/after every call.
+  Input classes of the histories: syndromes by class (random error, zero, single defect, two defects, random superset
+  of the history's focus defect — zero / single-defect syndromes are what decoders special-case), PlanarYDecoder on all
+  three gcd regimes of the size, random_seed as a value class (0, 1, 2^32-1, 2^63, 2^64, >128-bit ints; also in the
+  stream part, run and run_ftp), error_model.generate as an op, verbatim repeats of earlier calls.
+  Ownership: after EVERY call the caller flips in place bits of the arrays it was handed back as the result (recovery,
+  DecodeResult fields, arrays of the run dict, generated error); decode / decode_ftp / generate are then repeated at once
+  and must give the first answer; later calls are compared with fresh objects as before.  Identity: an array handed
+  back never is / shares memory with one handed back earlier nor with any array reachable from a functools cache of
+  qecsim (keys / results of the lru wrappers via gc referents) or from attributes of the code / decoder / error model.
 Excluded / pinned (random or stateful by documented design): MPS/RMPS skip-truncate masks (stp is never set: the mask
   comes from an unseeded default_rng()), PlanarYDecoder's random.choice between exactly tied cosets (random.seed pinned
   before every call in both processes), FileErrorModel (cursor) is not used.
@@ -43,7 +52,8 @@ REPLAY_RERUN = False  # the targeted replay re-evaluates the recorded input; no 
 RULE = ('memo: random call histories (<=40 calls, 15 keys, cap in {None,0,1,2,3,5,128}) against functools.lru_cache; '
         'stream: app.run/run_ftp on real codes (5-qubit, Steane, planar, toric, rotated planar/toric, colour, trivial) x '
         'all SimpleErrorModel subclasses x p in {0..1} x T<=3 x q in {None,0,.1,.5,1} x limits x 7 decoder answer '
-        'kinds, uniforms from a twin generator; non-trivial = a run with >=1 failure or measurement noise or >=2 runs. '
+        'kinds x random_seed value class (0, small, 2^32-1, 2^63, 2^64, up to 256-bit), uniforms from a twin generator; '
+        'non-trivial = a run with >=1 failure or measurement noise or >=2 runs. '
         'history differential: see coverage.explored')
 
 HERE = os.path.dirname(os.path.abspath(__file__))
@@ -409,6 +419,23 @@ def stream_monitors(rc, env, r0=None):
     return None
 
 
+SEED_VALUES = [0, 0, 1, 2, 5, 2 ** 31 - 1, 2 ** 31, 2 ** 32 - 1, 2 ** 32, 2 ** 53 + 1, 2 ** 63 - 1, 2 ** 63, 2 ** 64 - 1,
+               2 ** 64, 2 ** 64 + 1, 2 ** 96 + 12345, 2 ** 128 - 1, 2 ** 128, 10 ** 40 + 7, 2 ** 200 + 3]
+
+
+def rand_seed(rng):
+    """random_seed as a VALUE class: every non-negative int is a legal seed (SeedSequence takes arbitrary precision),
+    so the extreme / falsy / word-boundary values are drawn as often as ordinary ones"""
+    k = rng.random()
+    if k < 0.45:
+        return rng.choice(SEED_VALUES)
+    if k < 0.55:
+        return rng.randrange(2 ** rng.choice([1, 3, 8, 16]))  # small seeds incl. 0
+    if k < 0.65:
+        return rng.getrandbits(rng.choice([64, 65, 127, 128, 129, 256]))
+    return rng.randrange(2 ** 32)
+
+
 def gen_stream_recipe(rng):
     mode = rng.choice(['ideal', 'ftp', 'ftp'])
     T = 1 if mode == 'ideal' else rng.choice([1, 2, 3])
@@ -416,7 +443,7 @@ def gen_stream_recipe(rng):
             'p': rng.choice([0.0, 0.03, 0.1, 0.25, 0.5, 0.9, 1.0]), 'mode': mode, 'T': T,
             'q': None if mode == 'ideal' else rng.choice([None, 0.0, 0.1, 0.5, 1.0]),
             'mr': rng.choice([None, 1, 2, 3, 5, 8]), 'mf': rng.choice([None, None, 1, 2]), 'fuel': 8,
-            'seed': rng.randrange(2 ** 32), 'kind': rng.choice(KINDS), 'salt': rng.randrange(10 ** 6)}
+            'seed': rand_seed(rng), 'kind': rng.choice(KINDS), 'salt': rng.randrange(10 ** 6)}
 
 
 def part_stream(ctx):
@@ -433,11 +460,15 @@ def part_stream(ctx):
         ctx.count('stream.mode', '{}/T{}'.format(rc['mode'], rc['T'])); ctx.count('stream.em', rc['em'][0])
         ctx.count('stream.code', rc['code'][0]); ctx.count('stream.status', impl.split()[0].split(':')[0])
         ctx.count('stream.kind', rc['kind']); ctx.count('stream.limits', '{}/{}'.format(rc['mr'], rc['mf']))
-        ctx.count('stream.q', rc['q'])
+        ctx.count('stream.q', rc['q']); ctx.count('stream.seed', seed_class(rc['seed']))
         if impl.startswith('ok'):
             ctx.count('stream.n_run', impl.split()[1])
     # the seed is logged for reproducibility (app.py logs SeedSequence.entropy); informational only
     ctx.count('stream.seed_logged', seed_logged())
+
+
+def seed_class(v):
+    return '0' if v == 0 else ('<2^{}'.format(next(b for b in (8, 32, 63, 64, 128, 4096) if v < 2 ** b)))
 
 
 def seed_logged():
@@ -477,6 +508,14 @@ def fam_planar_small(rng):
     codes = [['PlanarCode', s] for s in rng.sample([[2, 2], [2, 3], [3, 3], [3, 4], [4, 4]], 2)]
     decs = [['PlanarRMPSDecoder', {}], ['PlanarMPSDecoder', {'mode': rng.choice('cra')}], ['PlanarYDecoder', {}]]
     return codes, decs, None
+
+
+def fam_planar_y(rng):
+    """PlanarYDecoder has three regimes by the gcd structure of the size: co-prime (destabilizers), one side a multiple of
+    the other (partial recoveries, no residual syndrome), gcd > 1 otherwise (partial recoveries + residual look-up)"""
+    codes = [['PlanarCode', rng.choice([[4, 6], [6, 4]])], ['PlanarCode', rng.choice([[2, 3], [3, 4], [3, 5], [4, 5], [5, 3]])],
+             ['PlanarCode', rng.choice([[2, 2], [2, 4], [3, 3], [4, 4], [4, 2]])]]
+    return rng.sample(codes, 2), [['PlanarYDecoder', {}]], None
 
 
 def fam_toric(rng):
@@ -519,7 +558,7 @@ def fam_basic(rng):
     return [['FiveQubitCode', []], ['SteaneCode', []]], [['NaiveDecoder', {}]], None
 
 
-FAMS = [fam_planar, fam_planar, fam_planar_small, fam_toric, fam_rplanar, fam_rplanar, fam_rplanar_big, fam_rtoric, fam_color,
+FAMS = [fam_planar, fam_planar, fam_planar_small, fam_planar_y, fam_toric, fam_rplanar, fam_rplanar, fam_rplanar_big, fam_rtoric, fam_color,
         fam_basic]
 
 
@@ -542,42 +581,134 @@ def is_ftp(dec):
     return dec[0] in ('RotatedPlanarSMWPMDecoder', 'RotatedToricSMWPMDecoder')
 
 
+def gf2_rank(M):
+    M = (np.array(M, dtype=np.uint8) % 2).copy()
+    r = 0
+    for c in range(M.shape[1]):
+        piv = next((i for i in range(r, M.shape[0]) if M[i, c]), None)
+        if piv is None:
+            continue
+        M[[r, piv]] = M[[piv, r]]
+        for i in range(M.shape[0]):
+            if i != r and M[i, c]:
+                M[i] ^= M[r]
+        r += 1
+        if r == M.shape[0]:
+            break
+    return r
+
+
+_CODE_INFO = {}
+
+
+def code_info(code):
+    """(code object, stabilizers, swapped stabilizers for the syndrome map, stabilizers independent?)"""
+    k = json.dumps(code)
+    if k not in _CODE_INFO:
+        c = make_code(code)
+        S = np.array(c.stabilizers)
+        n = S.shape[1] // 2
+        _CODE_INFO[k] = (c, S, np.hstack((S[:, n:], S[:, :n])), gf2_rank(S) == len(S))
+    return _CODE_INFO[k]
+
+
+def single_qubit_error(n, qubit, pauli):
+    e = np.zeros(2 * n, dtype=int)
+    if pauli in 'XY':
+        e[qubit % n] = 1
+    if pauli in 'ZY':
+        e[n + qubit % n] = 1
+    return e
+
+
+SYN_CLASSES = ['random', 'random', 'random', 'zero', 'single', 'single', 'double', 'super', 'super']
+
+
+def gen_syndrome(rng, code, em, op, focus):
+    """syndrome argument of a decode / decode_ftp spec, by CLASS: random error (as the runs produce), zero, single defect
+    (one stabilizer bit where the stabilizers are independent, else the defects of one single-qubit error), two defects,
+    and a random syndrome containing the focus defect.  The zero and single-defect syndromes are the inputs decoders
+    special-case (empty matching, no accumulation); `focus` (a stabilizer index and a qubit per history and code) makes
+    the structured syndromes of one history hit the same per-defect cache entries again and again."""
+    c, S, Ssw, indep = code_info(code)
+    n, m = S.shape[1] // 2, len(S)
+    e_m = make_em(em)
+    T = 1 if op == 'decode' else rng.choice([1, 2, 3])
+    grng = np.random.default_rng(rng.randrange(2 ** 32))
+    pe = rng.choice([0.05, 0.1, 0.2, 0.3])
+    cls = rng.choice(SYN_CLASSES)
+    fs, fq, fp = focus
+    unit = np.zeros(m, dtype=int)  # defects placed directly (only where every syndrome is reachable)
+    zero_e = np.zeros(2 * n, dtype=int)
+    rand_e = lambda: np.array(e_m.generate(c, pe, grng))  # noqa: E731
+    if cls == 'random':
+        es = [rand_e() for _ in range(T)]
+    elif cls == 'zero':
+        es = [zero_e.copy() for _ in range(T)]
+    else:
+        use_unit = indep and rng.random() < 0.7
+        first = zero_e.copy() if use_unit else single_qubit_error(n, fq, fp)
+        if use_unit:
+            unit[fs % m] = 1
+        if cls == 'double':
+            if use_unit:
+                unit[rng.choice([(fs + 1) % m, rng.randrange(m)])] ^= 1
+                if not unit.any():
+                    unit[fs % m] = 1
+            else:
+                first = first ^ single_qubit_error(n, rng.randrange(n), rng.choice('XYZ'))
+        elif cls == 'super':
+            first = first ^ rand_e()
+        es = [first] + [(rand_e() if cls == 'super' else zero_e.copy()) for _ in range(T - 1)]
+    ss = [(np.array(e) @ Ssw.T) % 2 for e in es]
+    ss[0] = ss[0] ^ unit
+    out = {'syn_class': cls}
+    if op == 'decode':
+        out['syn'] = bits(ss[0])
+        if not unit.any():
+            out['err'] = bits(es[0])
+    else:
+        q = rng.choice([0.0, 0.05, 0.2]) if cls in ('random', 'super') else 0.0
+        ms = [(grng.random(m) < q).astype(int) for _ in range(T)]
+        out['syn'] = '/'.join(bits(ms[t - 1] ^ ss[t] ^ ms[t]) for t in range(T))
+        if not unit.any():
+            out['err'] = bits(np.bitwise_xor.reduce(es))
+        out['T'] = T; out['q'] = q
+        out['meas'] = '/'.join(bits(x) for x in ms)
+    return out
+
+
 def gen_history(rng, length):
-    """one history: call specs over a small set of shared codes / decoders / error models / probabilities"""
+    """one history: call specs over a small set of shared codes / decoders / error models / probabilities; after every
+    call the caller modifies in place what it was handed back ('mut'); earlier calls are repeated verbatim later on"""
     stations = []
     for fam in rng.sample(FAMS, rng.choice([1, 1, 2])):
         codes, decs, dom = fam(rng)
         ems = smwpm_ems(rng) if dom == 'smwpm' else general_ems(rng)
         ps = rng.sample([0.02, 0.05, 0.1, 0.15, 0.2, 0.3, 0.45], 2)
         stations.append((codes, decs, ems, ps))
+    focus = {}
     specs = []
     for _ in range(length):
+        if specs and rng.random() < 0.2:
+            spec = json.loads(json.dumps(rng.choice(specs)))  # the very same call once more (it must give the same answer)
+            spec['mut'] = rng.randrange(2 ** 16); spec['again'] = True
+            specs.append(spec)
+            continue
         codes, decs, ems, ps = rng.choice(stations)
         code, dec, em, p = rng.choice(codes), rng.choice(decs), rng.choice(ems), rng.choice(ps)
-        ops = ['decode', 'decode', 'decode', 'run_once', 'run']
+        ops = ['decode', 'decode', 'decode', 'decode', 'run_once', 'run', 'generate']
         if is_ftp(dec):
-            ops += ['decode_ftp', 'run_once_ftp', 'run_ftp']
+            ops += ['decode_ftp', 'decode_ftp', 'run_once_ftp', 'run_ftp']
         op = rng.choice(ops)
-        spec = {'op': op, 'code': code, 'dec': dec, 'em': em, 'p': p}
+        spec = {'op': op, 'code': code, 'dec': dec, 'em': em, 'p': p, 'mut': rng.randrange(2 ** 16)}
         if op in ('decode', 'decode_ftp'):
-            c = make_code(code)
-            e_m = make_em(em)
-            T = 1 if op == 'decode' else rng.choice([1, 2, 3])
-            grng = np.random.default_rng(rng.randrange(2 ** 32))
-            pe = rng.choice([0.05, 0.1, 0.2, 0.3])
-            S = np.array(c.stabilizers)
-            es = [e_m.generate(c, pe, grng) for _ in range(T)]
-            ss = [(np.array(e) @ np.hstack((S[:, S.shape[1] // 2:], S[:, :S.shape[1] // 2])).T) % 2 for e in es]
-            if op == 'decode':
-                spec['syn'] = bits(ss[0]); spec['err'] = bits(es[0])
-            else:
-                q = rng.choice([0.0, 0.05, 0.2])
-                ms = [(grng.random(len(S)) < q).astype(int) for _ in range(T)]
-                spec['syn'] = '/'.join(bits(ms[t - 1] ^ ss[t] ^ ms[t]) for t in range(T))
-                spec['err'] = bits(np.bitwise_xor.reduce(es)); spec['T'] = T; spec['q'] = q
-                spec['meas'] = '/'.join(bits(x) for x in ms)
+            fk = json.dumps(code)
+            if fk not in focus:
+                focus[fk] = (rng.randrange(10 ** 6), rng.randrange(10 ** 6), rng.choice('XYZ'))
+            spec.update(gen_syndrome(rng, code, em, op, focus[fk]))
         else:
-            spec['seed'] = rng.randrange(2 ** 32)
+            spec['seed'] = rand_seed(rng)
             if op in ('run_once_ftp', 'run_ftp'):
                 spec['T'] = rng.choice([1, 2, 3]); spec['q'] = rng.choice([None, 0.0, 0.1])
             if op in ('run', 'run_ftp'):
@@ -635,6 +766,12 @@ def confirm(history, i, hs_a, hs_b):
     if fa is None or fb is None or 'TIMEOUT' in (fa[0], fb[0]):
         return None
     if fa[0] != fb[0]:
+        fa2 = run_job([strip_err(target)], 'fresh', hs_a)
+        if fa2 is not None and fa2[0] != fa[0] and fa2[0] != 'TIMEOUT':
+            return {'what': 'the same call (same arguments, same seed) on fresh objects in two fresh interpreters with the '
+                            'same PYTHONHASHSEED gives different results: not reproducible',
+                    'history': [strip_err(target)], 'index': 0, 'hashseeds': [hs_a, hs_b], 'results': [fa[0], fa2[0]],
+                    'mode': 'unrepeatable'}
         return {'what': 'the same call on fresh objects gives different results in interpreters with different '
                         'PYTHONHASHSEED (or memory layout: identity hashes)', 'history': [strip_err(target)], 'index': 0, 'hashseeds': [hs_a, hs_b],
                 'results': [fa[0], fb[0]], 'mode': 'hashseed'}
@@ -700,6 +837,9 @@ def part_history(ctx):
         spec, res = histories[h][i], shared_res[(h, i)]
         ctx.count('hist.op', spec['op']); ctx.count('hist.decoder', spec['dec'][0])
         ctx.count('hist.code', spec['code'][0]); ctx.count('hist.em', spec['em'][0])
+        ctx.count('hist.syn_class', spec.get('syn_class', '-')); ctx.count('hist.again', bool(spec.get('again')))
+        if 'seed' in spec:
+            ctx.count('hist.seed', seed_class(spec['seed']))
         ctx.count('hist.result', 'EXC' if res.startswith('EXC') else ('TIMEOUT' if res == 'TIMEOUT' else 'value'))
     compared = differing = unconfirmed = 0
     reported = set()
@@ -723,20 +863,37 @@ def part_history(ctx):
                 ctx.monitor_fail(f['what'], f, key='history:{}:{}'.format(sp['dec'][0], sp['op']))
             else:
                 unconfirmed += 1
-    for h, i, nt in mutated[:3]:
+    # notes of the workers: REPEAT (same call after the caller modified its result differs), ALIAS (result array is /
+    # shares memory with an earlier result or a cached array), ARG / CODE (arguments or code matrices modified) are
+    # failures of the property as stated; CACHE-WRITE (a cached array changed in place during a call) is a lead only:
+    # it is followed up by the differential itself (later calls of the history, repeats) and counted below
+    prio = {'REPEAT': 0, 'ALIAS': 1, 'ARG': 2, 'CODE': 3}
+    leads = [x for x in mutated if x[2].startswith('CACHE-WRITE')]
+    hard = sorted((x for x in mutated if not x[2].startswith('CACHE-WRITE')),
+                  key=lambda x: (prio.get(x[2].split(':')[0], 9), len(histories[x[0]][:x[1] + 1])))
+    seen_keys = set()
+    for h, i, nt in hard:
         sp = histories[h][i]
+        k = 'mutation:{}:{}'.format(sp['em'][0] if sp['op'] == 'generate' else sp['dec'][0], sp['op'])
+        if k in seen_keys or len(seen_keys) >= 3:
+            continue
+        seen_keys.add(k)
         ctx.monitor_fail(nt, {'part': 'history', 'mode': 'mutation', 'history': histories[h][:i + 1], 'index': i,
-                              'what': nt}, key='mutation:{}:{}'.format(sp['dec'][0], sp['op']))
+                              'what': nt}, key=k)
     # pristine matrices: the shared code objects still show the matrices a fresh interpreter computes
     ctx.explored['history_differential'] = {
         'evaluations': compared, 'histories': n_hist, 'differing_calls': differing,
         'differences_not_reproduced_in_clean_interpreters': unconfirmed,
         'mutation_checks': len(flat), 'exhaustive': False,
+        'cache_write_leads': len(leads), 'cache_write_lead_sample': [
+            {'call': strip_err(histories[h][i]), 'note': nt} for h, i, nt in leads[:2]],
         'rule': 'each call of a random interleaving on shared objects (caches cleared only at the start of a history) '
                 'vs the same call on fresh objects with all functools caches cleared, in interpreters with '
                 'PYTHONHASHSEED in {}; canonical result = recovery bits / DecodeResult fields / run dict without '
                 'wall_time (floats as hex) / exception type; argument arrays and code matrices hashed around every '
-                'call'.format(hs),
+                'call; after every call the caller flips bits of the result arrays in place (decode/generate repeated '
+                'at once); result arrays checked for identity / shared memory with earlier results and cached '
+                'arrays'.format(hs),
         'wall_s': round(time.time() - t0, 1)}
     ctx.evaluations += compared
 
@@ -797,6 +954,9 @@ def replay(ctx, path):
             hs_a, hs_b = (inp.get('hashseeds') or [11, 12])[:2]
             if inp.get('mode') == 'hashseed':
                 a, b = run_job(hist, 'fresh', hs_a), run_job(hist, 'fresh', hs_b)
+                still = a is not None and b is not None and a[i] != b[i]
+            elif inp.get('mode') == 'unrepeatable':
+                a, b = run_job(hist, 'fresh', hs_a), run_job(hist, 'fresh', hs_a)
                 still = a is not None and b is not None and a[i] != b[i]
             elif inp.get('mode') == 'mutation':
                 r = collect(spawn({'mode': 'shared', 'calls': hist, 'limit': CALL_LIMIT}, hs_a), 600)
